@@ -35,7 +35,7 @@ func decodeOneRegisterAndOneExtendedWidthImmediate(instructionCode []byte, pc Pr
 
 // A.5.4
 func decodeTwoImmediates(instructionCode []byte, pc ProgramCounter, skipLength ProgramCounter) (uint64, uint64, error) {
-	lX := ProgramCounter(min(4, uint8(instructionCode[pc+1])))
+	lX := ProgramCounter(min(4, uint8(instructionCode[pc+1])%8))
 
 	decodedVX, err := utils.DeserializeFixedLength(instructionCode[pc+2:pc+2+lX], types.U64(lX))
 	if err != nil {
